@@ -130,7 +130,9 @@ def run_generator(ti, outdir, hook, overwrite=False):
     real_open = builtins.open
 
     def fake_open(name, mode='r', *a, **k):
-        if 'w' in mode and 'b' not in mode and str(name).startswith(outdir) and str(name).endswith(outname):
+        # every text file the generator writes into the output folder (whatever it is called)
+        if 'w' in mode and 'b' not in mode and str(name).startswith(outdir) and \
+                os.path.basename(str(name)) not in ('g.tx', 'm.mod', 'lib.mod'):
             return faulty_open(name, mode, hook, k.get('encoding'))
         return real_open(name, mode, *a, **k)
     builtins.open = fake_open
@@ -184,6 +186,7 @@ def explore(item):
             regen = c.branch(z3.Bool('regenerate_over_existing'))
             if regen:
                 run_generator(ti, d, lambda op: None)
+            before = set(os.listdir(d))
             try:
                 out = run_generator(ti, d, hook, overwrite=regen)
                 failed = False
@@ -202,6 +205,12 @@ def explore(item):
                     return ('left', {'fault': fired[0], 'size': len(got), 'full': len(ref), 'regenerate': regen,
                                      'reported': 'success', 'small_buffers': SMALL_BUFFERS[0]}, n[0])
                 return ('ok', fired[0], n[0])
+            # anything else the failed run left in the output folder (temporary / partial files)
+            stray = sorted(f_ for f_ in os.listdir(d) if f_ not in ('g.tx', 'm.mod', 'lib.mod', TARGETS[ti][2])
+                           and not (regen and f_ in before))
+            if stray:
+                return ('left', {'fault': fired[0], 'size': os.path.getsize(os.path.join(d, stray[0])), 'full': len(ref),
+                                 'regenerate': regen, 'small_buffers': SMALL_BUFFERS[0], 'stray_files': stray}, n[0])
             if os.path.exists(out):
                 with open(out) as f:
                     got = f.read()
@@ -252,6 +261,7 @@ def replay_fault(ti, index, regenerate=False, small_buffers=True, kind=0, persis
     n = [0]
     if regenerate:
         run_generator(ti, d, lambda op: None)
+    before = set(os.listdir(d))
 
     def hook(op):
         i = n[0]
@@ -281,6 +291,10 @@ def replay_fault(ti, index, regenerate=False, small_buffers=True, kind=0, persis
         except INJECTED:
             pass
         out = os.path.join(d, TARGETS[ti][2])
+        stray = sorted(f_ for f_ in os.listdir(d) if f_ not in ('g.tx', 'm.mod', 'lib.mod', TARGETS[ti][2])
+                       and not (regenerate and f_ in before))
+        if stray:
+            return True, 'the failed run left %s in the output folder' % stray
         if os.path.exists(out):
             d2 = tempfile.mkdtemp(prefix='c31r_')
             try:
@@ -307,7 +321,7 @@ def main():
                                             G.metamodel_generate_plantuml, E.metamodel_export, E.model_export)
     chk.cov['bounds'] = {'generators': ['%s->%s' % t[:2] for t in TARGETS], 'fault_kinds': ['raw write', 'raw close'], 'exception_kinds': ['OSError', 'RuntimeError', 'KeyboardInterrupt'],
                          'one_fault_per_run': True}
-    chk.cov['stubs'] = ['builtins.open wrapped for the output file only (fault-injecting file object)']
+    chk.cov['stubs'] = ['builtins.open wrapped for every text file written into the output folder (fault-injecting file object)']
     chk.cov['outside_claim'] = ['faults in open() itself, several faults per run, other generators']
     chk.assumptions = ['every write/flush/close call of the export is a fault point; enumerated exhaustively']
     paths = points = 0
